@@ -113,6 +113,18 @@ func acceptingEdgesDeep(fn *ssa.Function, acc acceptFn, depth int) map[edge]bool
 		if iff == nil {
 			continue
 		}
+		// a flag: a boolean built from accepting comparisons elsewhere ("done := i >= n; for !done
+		// { .., done = next() }" with next returning the comparison)
+		if t, f := acc(iff); !t && !f {
+			if _, isCmp := stripNot(iff.Cond).(*ssa.BinOp); !isCmp {
+				onT, onF := flagAccepts(iff.Cond, acc, map[ssa.Value]bool{}, 0)
+				if onT && !onF {
+					out[edge{b, b.Succs[0]}] = true
+				} else if onF && !onT {
+					out[edge{b, b.Succs[1]}] = true
+				}
+			}
+		}
 		// the condition as "call result is GOOD" (true / nil) with a polarity
 		cond, goodOnTrue := iff.Cond, true
 		for {
@@ -956,4 +968,71 @@ func accOnValue(acc acceptFn, v ssa.Value) (onTrue, onFalse bool) {
 		}
 	}()
 	return acc(&ssa.If{Cond: v})
+}
+
+// flagAccepts: onTrue - whenever the boolean v is true the accepting condition was established
+// where v was computed; onFalse likewise.  Constants hold vacuously for the value they never take.
+// v is followed through negation, phis, single local cells and the results of analysed functions.
+func flagAccepts(v ssa.Value, acc acceptFn, seen map[ssa.Value]bool, depth int) (onTrue, onFalse bool) {
+	if depth > 6 {
+		return false, false
+	}
+	if seen[v] {
+		return true, true
+	}
+	seen[v] = true
+	all := func(vals []ssa.Value) (bool, bool) {
+		if len(vals) == 0 {
+			return false, false
+		}
+		t, f := true, true
+		for _, x := range vals {
+			xt, xf := flagAccepts(x, acc, seen, depth+1)
+			t, f = t && xt, f && xf
+		}
+		return t, f
+	}
+	switch x := v.(type) {
+	case *ssa.Const:
+		if x.Value == nil || !isBool(x.Type()) {
+			return false, false
+		}
+		isTrue := x.Value.ExactString() == "true"
+		return !isTrue, isTrue
+	case *ssa.BinOp:
+		return accOnValue(acc, x)
+	case *ssa.UnOp:
+		if x.Op == token.NOT {
+			t, f := flagAccepts(x.X, acc, seen, depth)
+			return f, t
+		}
+		if x.Op == token.MUL {
+			if al, ok := x.X.(*ssa.Alloc); ok {
+				var vals []ssa.Value
+				for _, st := range storesTo(al) {
+					vals = append(vals, st.Val)
+				}
+				return all(vals)
+			}
+		}
+	case *ssa.Phi:
+		return all(x.Edges)
+	case *ssa.Extract, *ssa.Call:
+		call, idx := callOf(v)
+		if call == nil {
+			return false, false
+		}
+		h := directCallee(call)
+		if h == nil || h.Blocks == nil || topOf(h).Pkg == nil || !strings.HasPrefix(topOf(h).Pkg.Pkg.Path(), libPath) {
+			return false, false
+		}
+		var vals []ssa.Value
+		for _, hb := range h.Blocks {
+			if ret, ok := hb.Instrs[len(hb.Instrs)-1].(*ssa.Return); ok && idx < len(ret.Results) {
+				vals = append(vals, unspill(ret, ret.Results[idx]))
+			}
+		}
+		return all(vals)
+	}
+	return false, false
 }
